@@ -199,3 +199,60 @@ Definition pinned_good_names : list string :=
   ["valid-ts"; "store_1"; "a"; "A.b-c_d"; "..."; "-"; "_"; "0"; ".a"; "a."; "..a"; "acme-rockets"].
 Definition pinned_bad_names : list string :=
   ["."; ".."; ""; "a/b"; "../x"; "a b"; "a:b"; "a\b"; "a*"; "/"; "./a"; "a/.."; " a"; "a "; "a~"; "a+b"; "a,b"; "a@b"].
+
+(* ====================================================================== *)
+(* Audit additions: the clauses of the property text spelled out further   *)
+(* ====================================================================== *)
+
+(* --- "x509.subject identities parse, contain C, ST and O" ---
+   pkix.ParseDistinguishedName accepts exactly: no "=#", go-ldap's ParseDN
+   succeeds, every RDN single-valued and no attribute type twice ([add_rdns]),
+   and C, ST and O present with a non-empty value. *)
+Definition MandatoryPresent (m : amap) : Prop :=
+  lookup_default "C" m <> "" /\ lookup_default "ST" m <> "" /\ lookup_default "O" m <> "".
+
+Definition DNAccepted (v : string) (m : amap) : Prop :=
+  has_eqhash (list_ascii_of_string v) = false
+  /\ exists rdns, parse_dn v = POk rdns /\ add_rdns rdns [] = DOk m /\ MandatoryPresent m.
+
+(* [IdentityOK] with the mandatory attributes visible *)
+Definition IdentityExplicit (id : string) : Prop :=
+  id <> ""
+  /\ (id = wildcard
+      \/ exists p v, cut_byte ":" id = Some (p, v)
+           /\ (p = x509_subject -> v <> "" /\ exists m, DNAccepted v m)).
+
+(* --- "and do not overlap" ---
+   a is within b: every attribute of a occurs in b with the same value *)
+Definition Within (a b : amap) : Prop := forall k v, lookup k a = Some v -> lookup k b = Some v.
+
+(* stated on the identities of the statement themselves (positions in
+   trustedIdentities), not on the list of parsed maps *)
+Definition IdentitiesDisjoint (ids : list string) : Prop :=
+  forall i j idi idj vi vj mi mj, i <> j ->
+    nth_error ids i = Some idi -> nth_error ids j = Some idj ->
+    x509_value idi = Some vi -> x509_value idj = Some vj ->
+    parse_distinguished_name vi = DOk mi -> parse_distinguished_name vj = DOk mj ->
+    ~ Within mi mj.
+
+(* --- "every scope ... used by at most one statement", read literally ---
+   no scope string occurs in two different statements (positions) *)
+Definition ScopesOneStatement (ss : list stmt) : Prop :=
+  forall i j s t sc, nth_error ss i = Some s -> nth_error ss j = Some t ->
+    In sc (s_scopes s) -> In sc (s_scopes t) -> i = j.
+
+(* the rules of an OCI document with that literal reading in place of
+   "every scope string occurs once in the whole document" *)
+Definition WellFormedLiteralOCI (d : doc) : Prop :=
+  In (d_version d) supported_versions
+  /\ d_stmts d <> []
+  /\ NoDup (map s_name (d_stmts d))
+  /\ Forall StmtOK (d_stmts d)
+  /\ Forall StmtScopesOK (d_stmts d)
+  /\ ScopesOneStatement (d_stmts d).
+
+(* --- construction of a verifier --- *)
+
+(* the blob document a constructor can be given: New has no such parameter *)
+Definition blob_given (c : ctor) (blob : option doc) : option doc :=
+  match c with CtorNew => None | _ => blob end.
